@@ -1,5 +1,5 @@
 (** Correspondence and monitors for C17 (naming registry). *)
-From GV Require Import Base.Prelude Model.Naming.
+From GV Require Import Base.Prelude Model.Naming Model.ToGo.
 Open Scope string_scope.
 Open Scope list_scope.
 
@@ -41,3 +41,19 @@ Definition c17_mon (c : c17_case) : bool := names_ok (keys c) (n_obs c).
 Definition c17_monmodel (c : c17_case) : bool :=
   forallb (fun o => match o with Some _ => true | None => false end) (model_names c) &&
   names_ok (keys c) (flat_map (fun o => match o with Some n => [n] | None => [] end) (model_names c)).
+
+(** ---- the word-level functions themselves: templates.ToGo / ToGoPrivate against Model.ToGo ---- *)
+Record togo_case := { tg_name : string; tg_go : string; tg_private : string }.
+
+Definition togo_corr (c : togo_case) : bool :=
+  String.eqb (to_go (tg_name c)) (tg_go c) && String.eqb (to_go_private (tg_name c)) (tg_private c).
+
+Definition is_keyword_c (n : chars) : bool := existsb (chars_eqb n) keywords.
+(** the property on a pair of names, for GraphQL names whose first character that is not an underscore is a
+    letter: ToGo gives an exported Go identifier, ToGoPrivate a Go identifier that is not a keyword *)
+Definition names_valid (name go priv : string) : bool :=
+  if graphql_name (cs name) && letter_first (cs name)
+  then go_ident (cs go) && exported (cs go) && go_ident (cs priv) && negb (is_keyword_c (cs priv))
+  else true.
+Definition togo_mon (c : togo_case) : bool := names_valid (tg_name c) (tg_go c) (tg_private c).
+Definition togo_monmodel (c : togo_case) : bool := names_valid (tg_name c) (to_go (tg_name c)) (to_go_private (tg_name c)).
